@@ -123,6 +123,9 @@ func runC06(c *Ctx) {
 		}
 		abs[i] = boolAbs(o.Coll)
 		c.Count("form:" + f.via + "/" + f.value)
+		// the operand form has the value class it was written to have (an empty variable is empty, ...)
+		okForm := map[string]bool{"true": abs[i] == "t", "false": abs[i] == "f", "empty": abs[i] == "-", "other": abs[i] == "o", "multi": len(abs[i]) > 1}[f.value]
+		c.Law(okForm, "C06/operand-form", "every source of an operand (literal, element, computed, variable, function) yields the value it denotes: empty stays empty, a Boolean stays that Boolean", f.src+" ("+f.via+", meant to be "+f.value+")", boolOut(o))
 	}
 	ops := []string{"and", "or", "xor", "implies"}
 	for _, op := range ops {
@@ -150,6 +153,21 @@ func runC06(c *Ctx) {
 					lhs := boolOut(eval("(" + src + ").not()"))
 					rhs := boolOut(eval("(" + l.src + ").not() " + dual + " (" + r.src + ").not()"))
 					c.Law(lhs == rhs, "C06/de-morgan", "(a "+op+" b).not() = a.not() "+dual+" b.not()", src, lhs+" vs "+rhs)
+				}
+			}
+		}
+	}
+	// exists(criteria) is where(criteria).exists(): the same value, and the same failure when a criterion value is not a
+	// single Boolean-able item — wherever in the collection that item stands
+	{
+		later := []fhir.Resource{mustResource(`{"resourceType":"Patient","id":"p3","name":[{"given":["Ann"],"family":"A"},{"given":["Bob","Carl"]},{"family":"C"}],"telecom":[{"value":"1","rank":1},{"value":"2"}]}`)}
+		for _, in := range [][]fhir.Resource{input, later} {
+			for _, coll := range []string{"Patient.name", "Patient.telecom", "Patient", "Patient.name.given", "Patient.name.tail()", "Patient.name.take(1)"} {
+				for _, crit := range []string{"given", "family", "given.first()", "given.exists()", "family = 'A'", "rank", "value", "$this", "true", "false", "{}", "given.count() > 1", "given | family", "name.given", "active", "(given).first() = 'Ann'"} {
+					a := boolOut(compileEval(coll+".exists("+crit+")", in, envs...))
+					b := boolOut(compileEval(coll+".where("+crit+").exists()", in, envs...))
+					c.Observe("exists-where "+coll+" "+crit, true)
+					c.Law(a == b, "C06/exists-where", "exists(criteria) = where(criteria).exists(), errors included", coll+".exists("+crit+")", a+" vs "+b)
 				}
 			}
 		}
@@ -183,5 +201,12 @@ func runC06(c *Ctx) {
 		})
 		c.Emit("crit "+abs[i], boolOut(ob), abs[i] != "-")
 		c.Count("criteria")
+		if len(abs[i]) > 1 {
+			c.Law(strings.HasPrefix(boolOut(ob), "err"), "C06/multi-item-accepted", "more than one item in a Boolean context is an error, never silently its first item", "EvaluateAsBool("+f.src+")", boolOut(ob))
+			for _, wsrc := range []string{"(" + f.src + ").not()", "(" + f.src + ") and true", "true or (" + f.src + ")", "iif(" + f.src + ", 1, 2)"} {
+				wo := boolOut(eval(wsrc))
+				c.Law(strings.HasPrefix(wo, "err"), "C06/multi-item-accepted", "more than one item in a Boolean context is an error, never silently its first item", wsrc, wo)
+			}
+		}
 	}
 }
